@@ -13,15 +13,20 @@ TRAVERSALS = {"dfs", "bfs", "gather", "get_child_nodes", "get_child_nodes_with_f
               "iter_child_fields", "children"}
 # Locals that hold an object constructed on the same path (not yet visible to anyone else).
 # (module, function, local) -> reason
-FRESH_LOCALS = {
-    ("pyoak.codegen", "_gen_func", "new_f"): "function object just created by exec; not a node",
-}
+FRESH_LOCALS: dict[tuple[str, str, str], str] = {}
 FRESH_ROLE = {("pyoak.node", "ASTNode._deserialize"): "re-created by super()._deserialize on this path; the id is forced before the object is returned"}
 
 
 def is_fresh_local(f, name: str) -> str | None:
     if (f.mod.name, f.qualname, name) in FRESH_LOCALS:
         return FRESH_LOCALS[(f.mod.name, f.qualname, name)]
+    if (f.mod.name, f.qualname) == ("pyoak.codegen", "_gen_func"):
+        # the function object just created by exec: bound once to a call of an entry of the namespace handed to exec(); not a node
+        ns = {norm(c.args[2]) for c in ast.walk(f.node) if isinstance(c, ast.Call) and dotted(c.func) == "exec" and len(c.args) == 3}
+        binds = local_bindings(f.node, name)
+        if len(binds) == 1 and isinstance(binds[0], ast.Assign) and isinstance(binds[0].value, ast.Call) \
+                and isinstance(binds[0].value.func, ast.Subscript) and norm(binds[0].value.func.value) in ns:
+            return "function object just created by exec; not a node"
     if (f.mod.name, f.qualname) in FRESH_ROLE:
         from ..dcmodel import fresh_object_local
         if fresh_object_local(f.node) == name:
